@@ -762,3 +762,50 @@ pub fn socket_uploads_abab(addr: &str, a: &HttpReq, b: &HttpReq, timeout: Durati
         Err(e) => (HttpResp::failed(format!("socket: {e}")), HttpResp::failed(format!("socket: {e}"))),
     }
 }
+
+/// `n` uploads that have sent their head and the first bytes of their body and then wait (requests
+/// "in progress" inside the server). Complete them with `finish_held_uploads`.
+pub fn hold_uploads(addr: &str, n: usize, mk: &dyn Fn(usize) -> HttpReq) -> Vec<(TcpStream, Vec<u8>)> {
+    let mut held = vec![];
+    for i in 0..n {
+        let req = mk(i);
+        let body = req.chunks.concat();
+        let Ok(mut s) = TcpStream::connect(addr) else { continue };
+        let _ = s.set_read_timeout(Some(Duration::from_secs(20)));
+        let _ = s.set_write_timeout(Some(Duration::from_secs(20)));
+        let _ = s.set_nodelay(true);
+        let mut head = Vec::new();
+        head.extend_from_slice(format!("{} {} HTTP/1.1\r\nHost: localhost\r\nConnection: close\r\n", req.method, req.path).as_bytes());
+        for (k, v) in &req.headers {
+            head.extend_from_slice(k.as_bytes());
+            head.extend_from_slice(b": ");
+            head.extend_from_slice(v);
+            head.extend_from_slice(b"\r\n");
+        }
+        head.extend_from_slice(format!("Content-Length: {}\r\n\r\n", body.len()).as_bytes());
+        let first = body.len() / 2;
+        if s.write_all(&head).and_then(|_| s.write_all(&body[..first])).and_then(|_| s.flush()).is_ok() {
+            held.push((s, body[first..].to_vec()));
+        }
+    }
+    std::thread::sleep(Duration::from_millis(80));
+    held
+}
+
+/// Send the rest of every held upload and read the responses.
+pub fn finish_held_uploads(held: Vec<(TcpStream, Vec<u8>)>) -> Vec<HttpResp> {
+    let mut out = vec![];
+    for (mut s, rest) in held {
+        let _ = s.write_all(&rest).and_then(|_| s.flush());
+        let mut buf = Vec::new();
+        let mut tmp = [0u8; 16384];
+        loop {
+            match s.read(&mut tmp) {
+                Ok(0) | Err(_) => break,
+                Ok(n) => buf.extend_from_slice(&tmp[..n]),
+            }
+        }
+        out.push(parse_response(&buf, false).unwrap_or_else(|| HttpResp::failed("no response".into())));
+    }
+    out
+}
